@@ -55,9 +55,10 @@ type tOp struct {
 }
 
 type opDef struct {
-	i *iOp
-	d *dOp
-	t *tOp
+	i    *iOp
+	d    *dOp
+	t    *tOp
+	down uint64 // != 0: the face is destroyed (removed from the forwarder's face tables)
 }
 
 // slice is one focused alphabet; every slice is explored exhaustively to the depth bound.
@@ -73,6 +74,8 @@ type slice struct {
 	dfresh []bool
 	dextra []dOp
 	tops   []tOp
+	// faces that can be destroyed; packets they delivered before may still arrive afterwards
+	down []uint64
 	// routine: if non-empty, only these ops are routine; every other op of the slice is a
 	// deviation counted against Config.MaxDev (deviation-bounded deeper chains)
 	routine []string
@@ -101,6 +104,7 @@ var slices = map[string]slice{
 		iextra: []iOp{{face: fwsim.L1, name: "/localhost/x"}, {face: fwsim.N3, name: "/localhost/x"}, {face: fwsim.L5, name: "/localhost/x", cbp: true}, {face: fwsim.N2, name: "/a/b", cbp: true}},
 		dnames: []string{"/a", "/a/b", "/a/b/c", "/localhost/x"}, dfaces: []uint64{fwsim.N2, fwsim.L1}, dtoks: []string{"none", "echo0"}, dfresh: []bool{false},
 		tops: []tOp{t100, t5s},
+		down: []uint64{fwsim.N2},
 	},
 	// PIT tokens in both directions: downstream tokens per face, upstream echo of the first and
 	// second live entry, foreign 6-byte token, 4-byte token (not this forwarder's format)
@@ -289,6 +293,9 @@ func (s slice) ops() (names []string, defs map[string]opDef) {
 	for _, o := range s.dextra {
 		addD(o)
 	}
+	for _, f := range s.down {
+		add(fmt.Sprintf("Down(%s)", faceLabel[f]), opDef{down: f})
+	}
 	return
 }
 
@@ -428,6 +435,9 @@ func (s *sys) Ops(i any) []explore.Op {
 	out := make([]explore.Op, 0, len(s.allOps))
 	for _, op := range s.allOps {
 		d := s.defs[op.Name]
+		if d.down != 0 && !in.sim.FaceRegistered(d.down) {
+			continue
+		}
 		if d.i != nil && d.i.dup {
 			if _, ok := in.ref.lastNonce[d.i.name]; !ok {
 				continue
@@ -518,6 +528,9 @@ func (s *sys) step(in *inst, op explore.Op, check bool) (v []report.Violation) {
 		in.refresh()
 		v = in.ref.onData(in, o.face, o.name, lp.PitToken, wire, sends, now, false)
 		in.lastD, in.lastW, in.lastT = o, wire, lp.PitToken
+	case d.down != 0:
+		in.sim.RemoveFace(d.down)
+		in.refresh()
 	case d.t != nil:
 		in.sim.Advance(d.t.dt)
 		var sends []fwsim.Send
@@ -575,6 +588,11 @@ func (s *sys) Canon(i any) string {
 		return "u"
 	}
 	var b strings.Builder
+	for _, f := range []uint64{fwsim.L1, fwsim.N2, fwsim.N3, fwsim.N4, fwsim.L5, fwsim.A6} {
+		if !in.sim.FaceRegistered(f) {
+			fmt.Fprintf(&b, "down(%s)|", faceLabel[f])
+		}
+	}
 	// reference: pending records
 	keys := make([]recKey, 0, len(r.pend))
 	for k := range r.pend {
@@ -835,6 +853,7 @@ func main() {
 				o[c+" (all histories of length 3, before de-duplication)"] = sweep(rep, c, 3)
 			}
 			cov["oracle_branches_exercised"] = o
+			cov["dispatch_agreement_pass"] = dispatchPass(rep)
 		},
 		Rule: "BFS over histories of Interest arrivals I(face,name,CanBePrefix,MustBeFresh,nonce fresh|repeated,lifetime 4s|500ms,PIT token), Data arrivals D(face,name,freshness,token none|echo of a live upstream token|foreign 6-byte|4-byte) and clock steps T(dt)+reaper tick / A(dt) without tick, on one real fw.Thread with real PIT-CS, dead nonce list, FIB (tree, hash table) and strategies (best-route, multicast), cache on/off; four focused alphabets (names, tokens, flags, time); after every transition every SendPacket is compared with a three-valued reference of pending Interests and the reference is cross-checked against the white-box PIT dump; states de-duplicated on reference + white-box dump (clock-relative, tokens renamed by entry, nonces by equality with the last nonce per name)",
 		Assumptions: []string{
